@@ -313,11 +313,19 @@ type edgeFilter func(b *ssa.BasicBlock, i int) bool
 // to an instruction satisfying target, not passing through any instruction satisfying barrier.
 // It returns the witness as the list of instructions (barrier-free) leading to the target, or nil.
 func findPath(f *ssa.Function, from ssa.Instruction, barrier, target func(ssa.Instruction) bool, feasible edgeFilter) []ssa.Instruction {
+	return findPath2(f, from, barrier, target, feasible, nil)
+}
+
+// predFilter additionally sees the block through which b was entered (nil at the start).
+type predFilter func(pred, b *ssa.BasicBlock, succIdx int) bool
+
+func findPath2(f *ssa.Function, from ssa.Instruction, barrier, target func(ssa.Instruction) bool, feasible edgeFilter, pf predFilter) []ssa.Instruction {
 	if len(f.Blocks) == 0 {
 		return nil
 	}
 	type item struct {
 		b    *ssa.BasicBlock
+		pred *ssa.BasicBlock
 		idx  int
 		prev *item
 	}
@@ -325,7 +333,8 @@ func findPath(f *ssa.Function, from ssa.Instruction, barrier, target func(ssa.In
 	if from != nil {
 		startB, startI = from.Block(), instrIndex(from)+1
 	}
-	visited := map[*ssa.BasicBlock]bool{}
+	type key struct{ b, p *ssa.BasicBlock }
+	visited := map[key]bool{}
 	queue := []*item{{b: startB, idx: startI}}
 	for len(queue) > 0 {
 		it := queue[0]
@@ -338,7 +347,6 @@ func findPath(f *ssa.Function, from ssa.Instruction, barrier, target func(ssa.In
 				break
 			}
 			if target(in) {
-				// build witness
 				var rev []ssa.Instruction
 				rev = append(rev, in)
 				for p := it; p != nil; p = p.prev {
@@ -346,7 +354,6 @@ func findPath(f *ssa.Function, from ssa.Instruction, barrier, target func(ssa.In
 						rev = append(rev, p.b.Instrs[len(p.b.Instrs)-1])
 					}
 				}
-				// reverse (skip duplicate of own block terminator)
 				var out []ssa.Instruction
 				for i := len(rev) - 1; i >= 1; i-- {
 					if rev[i].Block() != in.Block() {
@@ -364,14 +371,105 @@ func findPath(f *ssa.Function, from ssa.Instruction, barrier, target func(ssa.In
 			if feasible != nil && !feasible(it.b, i) {
 				continue
 			}
-			if visited[s] {
+			if pf != nil && !pf(it.pred, it.b, i) {
 				continue
 			}
-			visited[s] = true
-			queue = append(queue, &item{b: s, idx: 0, prev: it})
+			k := key{s, it.b}
+			if pf == nil {
+				k = key{s, nil}
+			}
+			if visited[k] {
+				continue
+			}
+			visited[k] = true
+			queue = append(queue, &item{b: s, pred: it.b, idx: 0, prev: it})
 		}
 	}
 	return nil
+}
+
+// nonEmptyRangeFilter returns a predFilter that forbids leaving a `for range s` loop header
+// straight from its preheader (zero iterations) when s is known non-empty: a dominating test
+// `len(s) < K` (K ≥ 1) or `len(s) == 0` whose true edge does not reach the loop.
+func nonEmptyRangeFilter(f *ssa.Function) predFilter {
+	type hdr struct{ pre *ssa.BasicBlock }
+	headers := map[*ssa.BasicBlock]*ssa.BasicBlock{}
+	for _, b := range f.Blocks {
+		if len(b.Instrs) == 0 {
+			continue
+		}
+		ifi, ok := b.Instrs[len(b.Instrs)-1].(*ssa.If)
+		if !ok {
+			continue
+		}
+		bo, ok := ifi.Cond.(*ssa.BinOp)
+		if !ok || bo.Op != token.LSS {
+			continue
+		}
+		lenCall, ok := bo.Y.(*ssa.Call)
+		if !ok {
+			continue
+		}
+		bi, ok := lenCall.Call.Value.(*ssa.Builtin)
+		if !ok || bi.Name() != "len" {
+			continue
+		}
+		// bo.X = i+1 where i = phi(-1, ...)
+		add, ok := bo.X.(*ssa.BinOp)
+		if !ok || add.Op != token.ADD {
+			continue
+		}
+		phi, ok := add.X.(*ssa.Phi)
+		if !ok || phi.Block() != b {
+			continue
+		}
+		var pre *ssa.BasicBlock
+		for i, e := range phi.Edges {
+			if k, ok := constInt(e); ok && k == -1 {
+				pre = b.Preds[i]
+			}
+		}
+		if pre == nil {
+			continue
+		}
+		slice := lenCall.Call.Args[0]
+		// dominating emptiness test
+		for _, d := range f.Blocks {
+			if !d.Dominates(b) || d == b || len(d.Instrs) == 0 {
+				continue
+			}
+			dif, ok := d.Instrs[len(d.Instrs)-1].(*ssa.If)
+			if !ok {
+				continue
+			}
+			dbo, ok := dif.Cond.(*ssa.BinOp)
+			if !ok {
+				continue
+			}
+			lc, ok := dbo.X.(*ssa.Call)
+			if !ok {
+				continue
+			}
+			dbi, ok := lc.Call.Value.(*ssa.Builtin)
+			if !ok || dbi.Name() != "len" || lc.Call.Args[0] != slice {
+				continue
+			}
+			k, ok := constInt(dbo.Y)
+			if !ok {
+				continue
+			}
+			emptyOnTrue := (dbo.Op == token.LSS && k >= 1) || (dbo.Op == token.EQL && k == 0) || (dbo.Op == token.LEQ && k >= 0)
+			if emptyOnTrue && d.Succs[1].Dominates(b) && len(d.Succs[1].Preds) == 1 {
+				headers[b] = pre
+			}
+		}
+	}
+	return func(pred, b *ssa.BasicBlock, succIdx int) bool {
+		if pre, ok := headers[b]; ok && pred == pre && succIdx == 1 {
+			return false
+		}
+		return true
+	}
 }
 
 func (w *World) renderPath(p []ssa.Instruction) []string {
@@ -799,4 +897,76 @@ func roots(v ssa.Value, fn *ssa.Function) []rootVal {
 	}
 	rec(v, fn, 0)
 	return out
+}
+
+// guardedByEdge: every path from the function entry to `target` passes through the If `ifi` and
+// leaves it by successor `succ` on its last visit: the If's block dominates the target and the
+// target cannot be reached from the other successor without passing the If again.
+func guardedByEdge(ifi *ssa.If, succ int, target ssa.Instruction) bool {
+	b := ifi.Block()
+	if !(b.Dominates(target.Block())) || b == target.Block() {
+		return false
+	}
+	other := b.Succs[1-succ]
+	// search from `other` to target avoiding b
+	seen := map[*ssa.BasicBlock]bool{b: true}
+	stack := []*ssa.BasicBlock{other}
+	for len(stack) > 0 {
+		x := stack[len(stack)-1]
+		stack = stack[:len(stack)-1]
+		if seen[x] {
+			continue
+		}
+		seen[x] = true
+		if x == target.Block() {
+			return false
+		}
+		stack = append(stack, x.Succs...)
+	}
+	return true
+}
+
+// placeKey gives a canonical name to a value that is a load of a field path rooted at a local
+// Alloc, parameter or global ("load(alloc#3.Branch)"), so that two separate loads of the same
+// variable compare equal; other values are named by identity.
+func placeKey(v ssa.Value) string {
+	v = stripConv(v)
+	switch x := v.(type) {
+	case *ssa.UnOp:
+		if x.Op == token.MUL {
+			return "load(" + addrKey(x.X) + ")"
+		}
+	}
+	return "val@" + v.Name() + "@" + fnKey(v)
+}
+
+func fnKey(v ssa.Value) string {
+	if in, ok := v.(ssa.Instruction); ok && in.Parent() != nil {
+		return in.Parent().String()
+	}
+	if p, ok := v.(*ssa.Parameter); ok {
+		return p.Parent().String()
+	}
+	return ""
+}
+
+func addrKey(a ssa.Value) string {
+	switch x := a.(type) {
+	case *ssa.FieldAddr:
+		name, _, _ := fieldName(x)
+		return addrKey(x.X) + "." + name
+	case *ssa.Alloc:
+		return "alloc@" + x.Name() + "@" + x.Parent().String()
+	case *ssa.Global:
+		return "global@" + x.String()
+	case *ssa.UnOp:
+		if x.Op == token.MUL {
+			return "*(" + addrKey(x.X) + ")"
+		}
+	case *ssa.Parameter:
+		return "param@" + x.Name() + "@" + x.Parent().String()
+	case *ssa.FreeVar:
+		return "freevar@" + x.Name() + "@" + x.Parent().String()
+	}
+	return "addr@" + a.Name() + "@" + fnKey(a)
 }
